@@ -16,12 +16,30 @@ SUMMARY = json.load(open(os.path.join(ROOT, "seeded", "summaries.json"))) \
 for path in sorted(glob.glob(os.path.join(ROOT, "seeded", "*", "meta.json"))):
     m = json.load(open(path))
     caught = m.get("checks_that_report_it") or {}
+    le = m.get("latest_evaluation") or {}
+    if le.get("verdict") == "CAUGHT":
+        caught = {m["property"]: le.get("monitors", [])}
     rep = "; ".join(f"{p}: {', '.join(x.split('.', 1)[1] if '.' in x else x for x in mons[:3])}"
                     for p, mons in caught.items()) or "**missed**"
     suite = (m["confirmed_by_me"].get("repository_test_suite_with_patch") or ["?"])[0]
     suite = suite.split(" in ")[0]
     files = ", ".join(os.path.basename(f) for f in m.get("files_changed", []))
     print(f"| {m['id']} | {m['property']} | {files} | {SUMMARY.get(m['id'], 'see seeded/%s/notes.md' % m['id'])} | {suite} | {rep} |")
+
+rv_path = os.path.join(ROOT, "tools", "revert_results.json")
+if os.path.exists(rv_path):
+    rv = json.load(open(rv_path))
+    print("\n### Reverted repairs (tools/revert_check.py, quick tier)\n")
+    print("| fix: commit | what it repaired | reverting it is reported by |")
+    print("|-------------|------------------|-----------------------------|")
+    for c, o in sorted(rv.items(), key=lambda kv: kv[1].get("subject", "")):
+        subj = o.get("subject", "")[5:90]
+        if "error" in o:
+            rep = "(cannot be un-applied mechanically; hand-written revert in tools/mutants_d.py / corpus)"
+        else:
+            rep = "; ".join(f"{p}: {', '.join(m.split('.', 1)[1] if '.' in m else m for m in x['monitors'][:2])}"
+                            for p, x in o["checks"].items() if x["verdict"] == "CAUGHT") or "**not reported**"
+        print(f"| {c} | {subj} | {rep} |")
 
 res = json.load(open(os.path.join(ROOT, "tools", "mutation_results.json")))
 print("\n### Mutation corpus (tools/mutants_*.py, quick tier)\n")
